@@ -45,6 +45,20 @@ Proof. rewrite sqrt_one_div. eapply is_derive_val; [apply is_derive_arcsinh|]. r
 #[global] Instance UnaryDiff_arcsinh : UnaryDiff arcsinh :=
   {| UnaryDiff_f' := fun x => sqrt (1 / (1 + x * x)); UnaryDiff_H := is_derive_arcsinh' |}.
 
+(* hyperbolic tangent: derivative sech^2 = 1 / cosh^2 *)
+Lemma cosh_pos' x : 0 < cosh x.
+Proof. unfold cosh. pose proof (exp_pos x); pose proof (exp_pos (- x)); lra. Qed.
+Lemma is_derive_tanh x : is_derive tanh x (1 / (cosh x * cosh x)).
+Proof.
+  pose proof (cosh_pos' x) as Hc. unfold tanh. auto_derive. lra.
+  assert (E : cosh x * cosh x - sinh x * sinh x = 1).
+  { unfold cosh, sinh. assert (Hm : exp x * exp (- x) = 1) by (rewrite <- exp_plus, Rplus_opp_r; apply exp_0).
+    set (a := exp x) in *. set (b := exp (- x)) in *. nra. }
+  field_simplify_eq; [|lra]. nra.
+Qed.
+#[global] Instance UnaryDiff_tanh : UnaryDiff tanh :=
+  {| UnaryDiff_f' := fun x => 1 / (cosh x * cosh x); UnaryDiff_H := is_derive_tanh |}.
+
 (* real cube root (odd extension of x^(1/3)): derivative cbrt x / (3 x) away from 0 *)
 Lemma Rcbrt_pos x : 0 < x -> Rcbrt x = exp (/ 3 * ln x).
 Proof. intros H; unfold Rcbrt. destruct (Rlt_dec 0 x); [reflexivity | lra]. Qed.
